@@ -192,10 +192,21 @@ static int cstl_hash_bucket_foreach(
 static int __cstl_hash_foreach(const struct cstl_hash * const h,
                                cstl_visit_func_t * const visit, void * const p)
 {
+    size_t count;
     int res;
     unsigned int i;
 
-    for (i = 0, res = 0; i < h->bucket.count && res == 0; i++) {
+    /*
+     * while a rehash that grows the table is in progress, nodes
+     * that have already been moved live in the buckets beyond the
+     * current count; those buckets must be walked, too
+     */
+    count = h->bucket.count;
+    if (h->bucket.rh.hash != NULL && h->bucket.rh.count > count) {
+        count = h->bucket.rh.count;
+    }
+
+    for (i = 0, res = 0; i < count && res == 0; i++) {
         res = cstl_hash_bucket_foreach(h, h->bucket.at[i].n, visit, p);
     }
 
